@@ -238,7 +238,7 @@ def gen_request(rng, k, *, mode="regular", host=b"example.com", hostile_p=0.6, a
     }
 
 
-def gen_response(rng, tag: bytes, req_method: str, hostile_p=0.5, allow_extra_after=True):
+def gen_response(rng, tag: bytes, req_method: str, hostile_p=0.5, allow_extra_after=True, extra_after_p=0.0):
     """Scripted origin response for the request carrying `tag`. Returns dict(raw, feats, close_after, status, body)."""
     feats = set()
     hostile = rng.random() < hostile_p
@@ -322,6 +322,10 @@ def gen_response(rng, tag: bytes, req_method: str, hostile_p=0.5, allow_extra_af
         elif f == "r-extra-after" and framing in ("cl", "chunked") and allow_extra_after:
             wire = wire + b"EXTRA-" + tag
             feats.add(f)
+    if extra_after_p and allow_extra_after and not close_after and framing in ("cl", "chunked") and "r-extra-after" not in feats and not nobody and rng.random() < extra_after_p:
+        # unsolicited bytes right behind a complete response on a keep-alive connection (idle-timeout 408, stale response, garbage)
+        wire = wire + rng.choice([b"HTTP/1.1 408 Request Timeout\r\nContent-Length: 0\r\n\r\n", b"HTTP/1.1 200 OK\r\nx-tag: " + tag + b"\r\nContent-Length: 6\r\n\r\nPOISON", b"EXTRA-" + tag])
+        feats.add("r-unsolicited-after")
     head = version + b" %d " % status + reason + b"\r\n"
     for a, b in headers:
         head += a + b": " + b + b"\r\n"
